@@ -557,7 +557,7 @@ func (e *Engine) step(fr *Frame, st *State, ins ssa.Instruction) []fork {
 				v := e.val(fr, st, x.X)
 				if x.IsAddr {
 					st.vars[id.Name] = varAddr{v.(PtrV)}
-				} else {
+				} else if _, isAddr := st.vars[id.Name].(varAddr); !isAddr {
 					st.vars[id.Name] = v
 				}
 			}
@@ -578,6 +578,9 @@ func (e *Engine) step(fr *Frame, st *State, ins ssa.Instruction) []fork {
 		}
 		o.Fresh = true
 		fr.env[x] = PtrV{Obj: o, Nil: TFalse, Elem: elem}
+		if x.Comment != "" && !x.Heap || (x.Comment != "" && x.Comment != "complit" && x.Comment != "varargs" && x.Comment != "slicelit" && x.Comment != "new") {
+			st.vars[x.Comment] = varAddr{PtrV{Obj: o, Nil: TFalse, Elem: elem}}
+		}
 	case *ssa.Store:
 		p := e.val(fr, st, x.Addr).(PtrV)
 		e.nilCheck(fr, st, ins, p.Nil, "store through nil pointer")
@@ -1174,6 +1177,10 @@ func (e *Engine) strEq(x, y StrV) *Term {
 	i := FreshBound("i", SInt)
 	body := Implies(And(Le(Num(0), i), Lt(i, x.Len)),
 		Eq(Select(x.Arr, Add(x.Off, i)), Select(y.Arr, Add(y.Off, i))))
+	if x.Arr == y.Arr {
+		// same array snapshot: equal windows are equal strings
+		return And(Eq(x.Len, y.Len), Or(Eq(x.Off, y.Off), Forall([]*Term{i}, body)))
+	}
 	return And(Eq(x.Len, y.Len), Forall([]*Term{i}, body))
 }
 
